@@ -483,3 +483,13 @@ def c16(tier: str) -> int:
     rep.assumptions += ['two-field classes over integer field values 0..2; hash flag patterns as listed in MC_Value.tla',
                         'generic classes subscripted with int / Any / not at all']
     return rep.finish()
+
+
+@check('C17')
+def c17(tier: str) -> int:
+    from . import program
+    rep = Report('C17', tier)
+    program.run(rep, tier)
+    rep.assumptions += ['programs of depth <= 2 (quick) / 3 (thorough) from the production rules of MC_Program.tla; single inheritance',
+                        'generic bases are always subscripted by their subclasses']
+    return rep.finish()
